@@ -4,7 +4,8 @@
         the real findForwardingVersion for requested = 0..255
    {"ev":"fwd","src":"live"|"shim","proto":p,"key":k,"req":r (-1: no single version byte),
     "macok":bool        HMAC-SHA256(secret, data after the first 32 bytes) = first 32 bytes (crypto/hmac)
-    "macwrong":bool     the same under a different secret (must not verify)
+    "macwrong":bool     the same under a different secret (must not verify); "secret" = the configured secret,
+                        used byte for byte (leading / trailing white space included)
     "data":[..]         the bytes after the signature
     "want":{"ip","uuid","name","props":[{name,value,sig}],"key":{expiry:[4 limbs],pub,sig,holder}}
                         what the player really is (harness knowledge; key only for shim players)
